@@ -14,7 +14,7 @@ import (
 // output-file contract.
 func CheckC12(t Target, src *choice.Src, st *Stats) *Violation {
 	var w *World
-	fam := src.Draw("c12.family", 10)
+	fam := src.Draw("c12.family", 11)
 	name := ""
 	switch fam {
 	case 0, 1:
@@ -50,6 +50,9 @@ func CheckC12(t Target, src *choice.Src, st *Stats) *Violation {
 	case 8:
 		name = "layered-graph"
 		w = layeredWorld(src)
+	case 10:
+		name = "many-files"
+		w = manyFilesWorld(src)
 	case 9:
 		name = "error-read-faults"
 		w = GenWorld(src, WOpts{Flags: true, LayoutFault: true, Defects: src.Bool("def")})
@@ -226,6 +229,40 @@ func layeredWorld(src *choice.Src) *World {
 	w := &World{OutKind: "file", Out: "gen.go", Class: cls, Cfg: cfg}
 	w.Files = []InFile{{Path: "g.yaml", Content: cfg.Y().Render(nil)}}
 	w.Patterns = []string{"g.yaml"}
+	w.MapSeed, w.ListSeed = seed64(src, "mapseed"), seed64(src, "listseed")
+	return w
+}
+
+// manyFilesWorld: 5-24 input files under one or two patterns; a drawn share of them is broken in
+// ways that make the YAML decoder report several errors per file (type mismatches in several
+// schema positions), is unreadable, or is matched twice.
+func manyFilesWorld(src *choice.Src) *World {
+	n := src.Range("mf.n", 5, 24)
+	w := &World{OutKind: "file", Out: "gen.go", Class: "many-files"}
+	broken := []string{
+		"parameters: 5\nservices: [1, 2]\ndecorators: {a: b}\nmeta: 7\n",
+		"meta:\n  pkg: [1]\n  imports: 3\n  functions: [x]\n  default_must_getter: maybe\nservices: text\n",
+		"services:\n  a:\n    arguments: 5\n    calls: 7\n    fields: [1]\n    tags: {x: y}\n    scope: 3\n    todo: perhaps\n",
+		"services:\n  b:\n    getter: [x]\n    must_getter: 12\n    type: {a: 1}\n    value: [1]\n    constructor: {a: b}\n",
+		"decorators:\n  - tag: [1]\n    decorator: {x: 1}\n    arguments: 5\n  - 7\n  - text\n",
+		"version: [1, 2]\nparameters: [a, b]\nservices: 12\n",
+	}
+	good := "parameters:\n  p%d: %d\n"
+	for i := 0; i < n; i++ {
+		name := fmt.Sprintf("many/%02d_part.yaml", i)
+		c := fmt.Sprintf(good, i, i)
+		if src.Chance("mf.broken", 2, 3) {
+			c = choice.Pick(src, "mf.kind", broken)
+		}
+		w.Files = append(w.Files, InFile{Path: name, Content: c})
+	}
+	w.Patterns = []string{"many/*.yaml"}
+	if src.Bool("mf.second") {
+		w.Patterns = append(w.Patterns, "many/0*_part.yaml")
+	}
+	if src.Chance("mf.quiet", 1, 4) {
+		w.Flags = []string{"--quiet"}
+	}
 	w.MapSeed, w.ListSeed = seed64(src, "mapseed"), seed64(src, "listseed")
 	return w
 }
